@@ -1419,10 +1419,7 @@ class Vmap(Generic[X, R], GFI[X, R]):
         *args,
         **kwargs,
     ) -> tuple[Trace[X, R], Weight]:
-        if self.in_axes.value is None:
-            in_axes = (0,) + (None,) * len(args)
-        else:
-            in_axes = (0,) + self.in_axes.value
+        in_axes = (0,) + self._arg_axes(len(args))
         tr, w = modular_vmap(
             self.gen_fn.generate,
             in_axes=in_axes,
@@ -1438,10 +1435,7 @@ class Vmap(Generic[X, R], GFI[X, R]):
         *args,
         **kwargs,
     ) -> tuple[Density, R]:
-        if self.in_axes.value is None:
-            in_axes = (0,) + (None,) * len(args)
-        else:
-            in_axes = (0,) + self.in_axes.value
+        in_axes = (0,) + self._arg_axes(len(args))
         density, retval = modular_vmap(
             self.gen_fn.assess,
             in_axes=in_axes,
@@ -1458,10 +1452,7 @@ class Vmap(Generic[X, R], GFI[X, R]):
         *args,
         **kwargs,
     ) -> tuple[Trace[X, R], Weight, X | None]:
-        if self.in_axes.value is None:
-            in_axes = (0, 0) + (None,) * len(args)
-        else:
-            in_axes = (0, 0) + self.in_axes.value
+        in_axes = (0, 0) + self._arg_axes(len(args))
         new_tr, w, discard = modular_vmap(
             self.gen_fn.update,
             in_axes=in_axes,
@@ -1478,10 +1469,7 @@ class Vmap(Generic[X, R], GFI[X, R]):
         *args,
         **kwargs,
     ) -> tuple[Trace[X, R], Weight, X | None]:
-        if self.in_axes.value is None:
-            in_axes = (0, None) + (None,) * len(args)
-        else:
-            in_axes = (0, None) + self.in_axes.value
+        in_axes = (0, None) + self._arg_axes(len(args))
         new_tr, w, discard = modular_vmap(
             self.gen_fn.regenerate,
             in_axes=in_axes,
@@ -1490,6 +1478,13 @@ class Vmap(Generic[X, R], GFI[X, R]):
             spmd_axis_name=self.spmd_axis_name.value,
         )(tr, s, *args, **kwargs)
         return new_tr, jnp.sum(w), discard
+
+    def _arg_axes(self, n_args: int) -> tuple:
+        """`in_axes` for the callee's arguments as a tuple (as `jax.vmap` reads it)."""
+        in_axes = self.in_axes.value
+        if in_axes is None or isinstance(in_axes, int):
+            return (in_axes,) * n_args
+        return tuple(in_axes)
 
     def merge(
         self, x: X, x_: X, check: jnp.ndarray | None = None
